@@ -1,6 +1,6 @@
 """C08 - idempotent updates, fresh reads, append-only history, nothing beyond now."""
-from .. import mon1
-from . import _w1case
+from .. import common, instrument as ins, mon1, mon2, w2
+from . import _diff, _w1case, _w2case
 
 ID = "C08"
 LEVEL = "exploration"
@@ -13,11 +13,12 @@ ASSUMPTIONS = ["private scalars of lazily skipped (flat) securities are excluded
 
 def plan(tier):
     n = 1200 if tier == "quick" else 30000
-    return [dict(unit="w1", n=n, builds=["py", "so"], case_timeout=60), dict(unit="w1fresh", n=n // 2, builds=["py", "so"], case_timeout=60)]
+    return [dict(unit="w1", n=n, builds=["py", "so"], case_timeout=60), dict(unit="w1fresh", n=n // 2, builds=["py", "so"], case_timeout=60),
+            dict(unit="w2inject", n=150 if tier == "quick" else 4000, builds=["py", "so"], case_timeout=180)]
 
 
 def floors(tier):
-    return {"min_decided": 300, "counters": {"idempotence_evals": 3000, "append_only_evals": 500, "no_future_evals": 3000, "freshness_evals": 500},
+    return {"min_decided": 300, "counters": {"idempotence_evals": 3000, "append_only_evals": 500, "no_future_evals": 3000, "freshness_evals": 500, "injected_updates": 500, "injected_reads": 500, "frames_compared": 500},
             "max_undecided_frac": 0.4}
 
 
@@ -25,7 +26,49 @@ def classify(mech, w, drv):
     return mech
 
 
+def run_inject(cs):
+    spec = w2.gen(cs)
+    ctx_box = []
+
+    def mk():
+        c = mon2.InjectCtx(cs)
+        ctx_box.append(c)
+        return c
+
+    a, b, fa, fb, ta, tb = _diff.run_pair(spec, {}, mk().run_kwargs())
+    sig = w2.signature(spec)
+    sample = w2.sample_of(spec)
+    cnt = {}
+    ctx = ctx_box[0]
+    if a.exc is not None or b.exc is not None:
+        if a.exc is not None and b.exc is not None and type(a.exc) is type(b.exc):
+            v, why = _w2case.classify_exc(a.exc, spec)
+            return common.result(v, sig=sig, why=why, sample=sample)
+        if a.exc is None:
+            return common.result(common.VIOL, sig=sig, nt=True, mech="c08_injection_raises", sample=sample,
+                                 witness={"exception_with_redundant_calls": repr(b.exc)[:300], "updates": ctx.updates, "reads": ctx.reads, "case_seed": cs})
+        v, why = _w2case.classify_exc(a.exc, spec)
+        return common.result(v, sig=sig, why=why, sample=sample)
+    common.bump(cnt, "injected_updates", ctx.updates)
+    common.bump(cnt, "injected_reads", ctx.reads)
+    common.bump(cnt, "frames_compared", len(fa))
+    common.bump(cnt, "trades", len(ta))
+    d = ins.first_frame_diff(fa, fb)
+    nt = len(ta) >= 1 and (ctx.updates + ctx.reads) >= 3
+    if d:
+        d.update(case_seed=cs, desc=spec["desc"], updates=ctx.updates, reads=ctx.reads)
+        mech = "c08_injection"
+        if a.root.bankrupt and d.get("col") in ("price", "value", "cash") and False:
+            mech = "k5_weight"
+        return common.result(common.VIOL, sig=sig, nt=True, cnt=cnt, mech=mech, witness=d, sample=sample)
+    if ta != tb:
+        return common.result(common.VIOL, sig=sig, nt=True, cnt=cnt, mech="c08_injection_trades", witness={"case_seed": cs, "trades_base": len(ta), "trades_injected": len(tb)}, sample=sample)
+    return common.result(common.HELD, sig=sig, nt=nt, cnt=cnt, sample=sample)
+
+
 def run_case(unit, cs, idx, build, params):
+    if unit == "w2inject":
+        return run_inject(cs)
     if unit == "w1fresh":
         return _w1case.run_w1(cs, [mon1.Freshness(cs)])
     return _w1case.run_w1(cs, [mon1.Idempotence(cs)])
